@@ -5,6 +5,8 @@
         confirm, in a throw-away worktree of /repo, that the change (1) applies, (2) byte-compiles, (3) keeps the pinned
         suite at 79 passes, and that the demonstration (4) passes without and (5) fails with the change; on success copy
         patch / demo / notes into /verif/seeded/<id>/ and write meta.json.
+  tools/seeded.py meta [<id> ...]
+        fill property / title / "what it needs to manifest" of meta.json from the agent's notes.md
   tools/seeded.py run [<id> ...]
         for each kept change: apply it to a throw-away worktree, run every registered check against that tree
         (./check Cxx --repo <worktree> --no-write), report which rules fire, record the result in meta.json["checks"].
@@ -52,7 +54,14 @@ def verify(src, sid, patch="patch.diff", demo="demo.py"):
     res = {"id": sid, "steps": {}}
     with Worktree() as wt:
         os.makedirs(os.path.join(wt, "_out"), exist_ok=True)
-        shutil.copy(demo_p, os.path.join(wt, "_out", "demo.py"))
+        # round-2 demos pin the worktree they were written in (sys.path / assertion): re-point them at this worktree
+        src_wt = os.path.dirname(os.path.abspath(src).rstrip("/"))
+        text = open(demo_p).read()
+        for name in os.listdir(src):
+            if name.endswith(".py") and name not in (os.path.basename(demo_p),):
+                shutil.copy(os.path.join(src, name), os.path.join(wt, "_out", name))     # helper modules a demo imports
+        with open(os.path.join(wt, "_out", "demo.py"), "w") as fh:
+            fh.write(text.replace(src_wt, wt) if src_wt.startswith("/tmp/") else text)
         rc, out = sh("PYTHONPATH=%s %s _out/demo.py" % (wt, PY), cwd=wt, timeout=600)
         res["steps"]["demo_without_change"] = {"exit": rc, "tail": out[-400:]}
         rc_a, out_a = sh("git apply %s" % patch_p, cwd=wt)
@@ -63,6 +72,7 @@ def verify(src, sid, patch="patch.diff", demo="demo.py"):
         res["steps"]["suite"] = {"tail": out_t.strip()}
         rc_d, out_d = sh("PYTHONPATH=%s %s _out/demo.py" % (wt, PY), cwd=wt, timeout=600)
         res["steps"]["demo_with_change"] = {"exit": rc_d, "tail": out_d[-600:]}
+    src_wt = os.path.dirname(os.path.abspath(src).rstrip("/"))
     ok = (res["steps"]["demo_without_change"]["exit"] == 0 and rc_a == 0 and rc_c == 0 and out_t.strip().startswith("79 passed") and rc_d != 0)
     res["confirmed"] = ok
     print(json.dumps(res, indent=1))
@@ -75,7 +85,7 @@ def verify(src, sid, patch="patch.diff", demo="demo.py"):
             shutil.copy(os.path.join(src, "notes.md"), os.path.join(dst, "notes.md"))
         meta_p = os.path.join(dst, "meta.json")
         meta = json.load(open(meta_p)) if os.path.exists(meta_p) else {}
-        meta.update({"id": sid, "confirmed": res["steps"], "what_i_ran": [
+        meta.update({"id": sid, "demo_worktree_path": src_wt, "confirmed": res["steps"], "what_i_ran": [
             "demo on a clean worktree (exit 0)", "git apply patch.diff", "compileall", "pinned suite: " + out_t.strip(), "demo with the change (exit %d)" % rc_d]})
         json.dump(meta, open(meta_p, "w"), indent=1)
     return ok
@@ -114,6 +124,50 @@ def run_one(sid):
         return ("%-8s target=%s caught=%s any=%s fired=%s" % (sid, target, caught, meta["checks"]["caught_by_any"], {k: v["rules"] or ("exit%d" % v["exit"]) for k, v in fired.items()}))
 
 
+def fill_meta(ids):
+    """property id, title and 'what it needs to manifest' from the agent's notes.md into meta.json"""
+    import re
+    base = os.path.join(VERIF, "seeded")
+    ids = ids or sorted(d for d in os.listdir(base) if os.path.isdir(os.path.join(base, d)))
+    for sid in ids:
+        d = os.path.join(base, sid)
+        meta_p = os.path.join(d, "meta.json")
+        meta = json.load(open(meta_p)) if os.path.exists(meta_p) else {"id": sid}
+        m = re.search(r"c(\d\d)([ab])$", sid)
+        meta["property"] = "C" + m.group(1)
+        meta["round"] = 2 if sid.startswith("r2") else 1
+        which = 1 if m.group(2) == "a" else 2
+        notes_p = os.path.join(d, "notes.md")
+        title, need = "", ""
+        if os.path.exists(notes_p):
+            notes = open(notes_p).read().splitlines()
+            heads = [i for i, l in enumerate(notes) if re.match(r"^#+\s+Mutation\s+%d\b" % which, l)]
+            if heads:
+                start = heads[0]
+                end = next((i for i in range(start + 1, len(notes)) if re.match(r"^#+\s+Mutation\s+%d\b" % (3 - which), notes[i]) or re.match(r"^##\s+(Commands|Demonstrations|Demos|Verification)", notes[i])), len(notes))
+                sec = notes[start:end]
+                title = re.sub(r"^#+\s+", "", sec[0]).strip()
+                for i, l in enumerate(sec):
+                    if re.search(r"needs? to manifest|what it needs|it needs:", l, re.I):
+                        para = [l.strip()]
+                        j = i + 1
+                        while j < len(sec) and sec[j].strip() and not sec[j].startswith("#"):
+                            para.append(sec[j].strip())
+                            j += 1
+                        if len(para) == 1 and j + 1 < len(sec):      # heading-style line followed by a blank and a list
+                            j += 1
+                            while j < len(sec) and sec[j].strip() and not sec[j].startswith("#"):
+                                para.append(sec[j].strip())
+                                j += 1
+                        need = " ".join(para)
+                        break
+        meta["breaks"] = title
+        meta["needs_to_manifest"] = re.sub(r"\*\*", "", need)[:900]
+        meta["origin"] = "fresh sub-agent given only the property text and a scratch worktree; notes.md is the agent's own report"
+        json.dump(meta, open(meta_p, "w"), indent=1)
+        print(sid, "|", title[:60], "|", meta["needs_to_manifest"][:90])
+
+
 if __name__ == "__main__":
     if len(sys.argv) >= 4 and sys.argv[1] == "verify":
         kw = {}
@@ -127,5 +181,7 @@ if __name__ == "__main__":
         sys.exit(0 if verify(sys.argv[2], sys.argv[3], **kw) else 1)
     elif len(sys.argv) >= 2 and sys.argv[1] == "run":
         run(sys.argv[2:])
+    elif len(sys.argv) >= 2 and sys.argv[1] == "meta":
+        fill_meta(sys.argv[2:])
     else:
         print(__doc__)
